@@ -228,7 +228,7 @@ func c02varidxAs(c *core.Ctx, R string) {
 			site.status, site.why = "bounded", strings.Join(whys, "; ")
 		} else if !reachable(pk, fd) {
 			site.status, site.why = "unreachable", "exported helper that no public operation of the API packages reaches (call graph from the C02 entry points)"
-		} else if r, ok := tableGet(varIdxTable, site.key); ok && r != "" {
+		} else if r, ok := tableGetMoved(c, varIdxTable, site.key); ok && r != "" {
 			site.status, site.why = "table", r
 		} else {
 			site.status, site.why = "open", strings.Join(whys, "; ")
@@ -332,8 +332,27 @@ func idxBounded(c *core.Ctx, pk *packagesPackage, env *core.LenEnv, stack []ast.
 							return true, "range key of the same container"
 						}
 					}
+					// the container was made with the length of the ranged collection
+					if off == 0 && !assignedIn(pk, l.Body, obj) && madeWithLenOf(pk, stack, cont, l.X, l.Pos(), l.End()) {
+						return true, "range key of " + core.ExprStr(l.X) + "; the container is make(..., len(" + core.ExprStr(l.X) + ")) and not reassigned"
+					}
 				}
 			case *ast.ForStmt:
+				// for i := len(cont) - 1; i >= 0; i--
+				if off == 0 && l.Init != nil && l.Cond != nil && l.Post != nil && !assignedIn(pk, l.Body, obj) {
+					if as, ok := l.Init.(*ast.AssignStmt); ok && len(as.Lhs) == 1 && len(as.Rhs) == 1 {
+						if ii, ok := as.Lhs[0].(*ast.Ident); ok && pk.TypesInfo.ObjectOf(ii) == obj {
+							if k, o := env.LenKeyOff(as.Rhs[0]); k != "" && k == contKey && o == -1 {
+								cond, isB := ast.Unparen(l.Cond).(*ast.BinaryExpr)
+								post, isP := l.Post.(*ast.IncDecStmt)
+								if isB && isP && post.Tok == token.DEC && core.ExprStr(post.X) == id.Name &&
+									((cond.Op == token.GEQ && core.ExprStr(cond.X) == id.Name && core.ExprStr(cond.Y) == "0") || (cond.Op == token.GTR && core.ExprStr(cond.X) == id.Name && core.ExprStr(cond.Y) == "-1")) {
+									return true, "countdown from len - 1 to 0 over the same container"
+								}
+							}
+						}
+					}
+				}
 				if be, ok := l.Cond.(*ast.BinaryExpr); ok && (be.Op == token.LSS || be.Op == token.LEQ) {
 					if ci, ok := ast.Unparen(be.X).(*ast.Ident); ok && pk.TypesInfo.ObjectOf(ci) == obj {
 						if k := env.LenKey(be.Y); k != "" && k == contKey && be.Op == token.LSS && off <= 0 {
@@ -350,6 +369,13 @@ func idxBounded(c *core.Ctx, pk *packagesPackage, env *core.LenEnv, stack []ast.
 					}
 				}
 			}
+		}
+	}
+	// (a') fill counter: `kept := 0; for ... range S { ... cont[kept] = v; kept++ ... }` with cont made
+	// with len(S): the counter is incremented at most once per iteration, so it stays below len(S)
+	if isID && off == 0 {
+		if ok, why := fillCounter(pk, stack, cont, id, sliceBound); ok {
+			return true, why
 		}
 	}
 	// (b) dominating guard: base+j < len(cont) with j >= off, or len(cont) > base+j
@@ -507,4 +533,216 @@ func clampedCounter(pk *packagesPackage, fd *ast.FuncDecl, stack []ast.Node, ix 
 		return false, ""
 	}
 	return true, "counter " + id.Name + " > 0 here, only decremented, and every assignment is clamped to the size field (or is the EndTop position)"
+}
+
+// enclosingFuncBody: the body of the innermost function declaration or literal on the stack.
+func enclosingFuncBody(stack []ast.Node) *ast.BlockStmt {
+	for i := len(stack) - 1; i >= 0; i-- {
+		switch f := stack[i].(type) {
+		case *ast.FuncLit:
+			return f.Body
+		case *ast.FuncDecl:
+			return f.Body
+		}
+	}
+	return nil
+}
+
+// madeWithLenOf: in the enclosing function, cont is assigned exactly once, before `before`, by
+// `make(T, len(S))` (any capacity), and is otherwise only written element-wise.
+func madeWithLenOf(pk *packagesPackage, stack []ast.Node, cont, S ast.Expr, before, until token.Pos) bool {
+	body := enclosingFuncBody(stack)
+	if body == nil {
+		return false
+	}
+	cs, ss := core.ExprStr(ast.Unparen(cont)), core.ExprStr(ast.Unparen(S))
+	// locals that hold len(S): `l := len(S)`, assigned once
+	lenAlias := map[string]bool{"len(" + ss + ")": true, ss + ".Len()": true}
+	assigns := map[string]int{}
+	ast.Inspect(body, func(n ast.Node) bool {
+		if as, ok := n.(*ast.AssignStmt); ok {
+			for _, lhs := range as.Lhs {
+				if id, ok := lhs.(*ast.Ident); ok {
+					assigns[id.Name]++
+				}
+			}
+		}
+		return true
+	})
+	ast.Inspect(body, func(n ast.Node) bool {
+		if as, ok := n.(*ast.AssignStmt); ok && as.Tok == token.DEFINE && len(as.Lhs) == 1 && len(as.Rhs) == 1 {
+			if id, ok := as.Lhs[0].(*ast.Ident); ok && assigns[id.Name] == 1 && lenAlias[core.ExprStr(ast.Unparen(as.Rhs[0]))] {
+				lenAlias[id.Name] = true
+			}
+		}
+		return true
+	})
+	made, other := false, false
+	// the make may sit under `if len(S) > 0` / `!= 0` (an empty S makes no iteration), nothing else
+	var visit func(list []ast.Stmt, conditional bool)
+	visit = func(list []ast.Stmt, conditional bool) {
+		for _, st := range list {
+			switch x := st.(type) {
+			case *ast.AssignStmt:
+				for i, lhs := range x.Lhs {
+					if core.ExprStr(ast.Unparen(lhs)) != cs {
+						continue
+					}
+					if len(x.Rhs) != len(x.Lhs) {
+						other = true
+						continue
+					}
+					call, isCall := ast.Unparen(x.Rhs[i]).(*ast.CallExpr)
+					if isCall && core.ExprStr(call.Fun) == "make" && len(call.Args) >= 2 && x.Pos() < before && !made && !conditional && lenAlias[core.ExprStr(ast.Unparen(call.Args[1]))] {
+						made = true
+						continue
+					}
+					other = true
+				}
+			case *ast.IfStmt:
+				posLen := false
+				if be, ok := ast.Unparen(x.Cond).(*ast.BinaryExpr); ok && x.Init == nil && x.Else == nil {
+					l, r := core.ExprStr(ast.Unparen(be.X)), core.ExprStr(ast.Unparen(be.Y))
+					if lenAlias[l] && ((be.Op == token.GTR && r == "0") || (be.Op == token.NEQ && r == "0") || (be.Op == token.GEQ && r == "1")) {
+						posLen = true
+					}
+				}
+				visit(x.Body.List, conditional || !posLen)
+				if x.Else != nil {
+					switch e := x.Else.(type) {
+					case *ast.BlockStmt:
+						visit(e.List, true)
+					case *ast.IfStmt:
+						visit([]ast.Stmt{e}, true)
+					}
+				}
+			case *ast.BlockStmt:
+				visit(x.List, conditional)
+			case *ast.ForStmt:
+				visit(x.Body.List, true)
+			case *ast.RangeStmt:
+				visit(x.Body.List, true)
+			case *ast.SwitchStmt:
+				for _, cl := range x.Body.List {
+					visit(cl.(*ast.CaseClause).Body, true)
+				}
+			case *ast.TypeSwitchStmt:
+				for _, cl := range x.Body.List {
+					visit(cl.(*ast.CaseClause).Body, true)
+				}
+			}
+		}
+	}
+	visit(body.List, false)
+	// S must not change between the make and the loop: it is only read in this function
+	if made && !other {
+		changed := false
+		ast.Inspect(body, func(n ast.Node) bool {
+			if as, ok := n.(*ast.AssignStmt); ok {
+				for _, lhs := range as.Lhs {
+					if core.ExprStr(ast.Unparen(lhs)) == ss && as.Pos() < until {
+						changed = true
+					}
+				}
+			}
+			return true
+		})
+		return !changed
+	}
+	return false
+}
+
+// fillCounter: see (a') in idxBounded.
+func fillCounter(pk *packagesPackage, stack []ast.Node, cont ast.Expr, id *ast.Ident, sliceBound bool) (bool, string) {
+	body := enclosingFuncBody(stack)
+	obj := pk.TypesInfo.ObjectOf(id)
+	if body == nil || obj == nil {
+		return false, ""
+	}
+	// every write of the counter: one `:= 0` / `= 0` / `var k int` and increments by one
+	var incs []ast.Node
+	bad := false
+	ast.Inspect(body, func(n ast.Node) bool {
+		switch x := n.(type) {
+		case *ast.AssignStmt:
+			for i, lhs := range x.Lhs {
+				if li, ok := lhs.(*ast.Ident); ok && pk.TypesInfo.ObjectOf(li) == obj {
+					switch {
+					case (x.Tok == token.DEFINE || x.Tok == token.ASSIGN) && len(x.Rhs) == len(x.Lhs) && core.ExprStr(x.Rhs[i]) == "0":
+					case x.Tok == token.ADD_ASSIGN && core.ExprStr(x.Rhs[0]) == "1":
+						incs = append(incs, x)
+					default:
+						bad = true
+					}
+				}
+			}
+		case *ast.IncDecStmt:
+			if li, ok := x.X.(*ast.Ident); ok && pk.TypesInfo.ObjectOf(li) == obj {
+				if x.Tok == token.INC {
+					incs = append(incs, x)
+				} else {
+					bad = true
+				}
+			}
+		case *ast.UnaryExpr:
+			if x.Op == token.AND {
+				if li, ok := ast.Unparen(x.X).(*ast.Ident); ok && pk.TypesInfo.ObjectOf(li) == obj {
+					bad = true
+				}
+			}
+		}
+		return true
+	})
+	if bad || len(incs) != 1 {
+		return false, ""
+	}
+	// the increment sits directly in (an if/else of) exactly one range loop over S, not in a nested loop
+	var loop *ast.RangeStmt
+	nested := false
+	var walk func(n ast.Node, cur *ast.RangeStmt, depth int)
+	walk = func(n ast.Node, cur *ast.RangeStmt, depth int) {
+		ast.Inspect(n, func(m ast.Node) bool {
+			if m == nil || m == n {
+				return true
+			}
+			switch y := m.(type) {
+			case *ast.RangeStmt:
+				walk(y.Body, y, depth+1)
+				return false
+			case *ast.ForStmt:
+				walk(y.Body, nil, depth+1)
+				return false
+			case *ast.FuncLit:
+				walk(y.Body, nil, depth+1)
+				return false
+			}
+			if m == incs[0] {
+				if cur != nil && depth == 1 {
+					loop = cur
+				} else {
+					nested = true
+				}
+			}
+			return true
+		})
+	}
+	walk(body, nil, 0)
+	if loop == nil || nested {
+		return false, ""
+	}
+	if !madeWithLenOf(pk, stack, cont, loop.X, loop.Pos(), loop.End()) {
+		return false, ""
+	}
+	// the use: inside the loop (an index below the number of completed iterations) or, as a slice
+	// bound, anywhere after the make
+	inLoop := false
+	for _, a := range stack {
+		if a == ast.Node(loop) {
+			inLoop = true
+		}
+	}
+	if inLoop || sliceBound {
+		return true, "fill counter " + id.Name + ": incremented once per iteration of the range over " + core.ExprStr(loop.X) + ", the container is make(..., len(" + core.ExprStr(loop.X) + "))"
+	}
+	return false, ""
 }
